@@ -309,7 +309,7 @@ impl CasObjectInfoV1 {
                 reader.bytes() == old(reader).bytes(),
                 r.n <= r.avail, r.avail == 0 || old(reader).pos() + r.avail <= old(reader).bytes().len(), old(reader).bytes().len() <= u32::MAX,
                 s.ident == CAS_OBJECT_FORMAT_IDENT, s.version == CAS_OBJECT_FORMAT_VERSION, s.ident_hash_section == CAS_OBJECT_FORMAT_IDENT_HASHES, s.hashes_version == CAS_OBJECT_FORMAT_HASHES_VERSION,
-                s.ident_boundary_section == CAS_OBJECT_FORMAT_IDENT_BOUNDARIES, s.boundaries_version == CAS_OBJECT_FORMAT_BOUNDARIES_VERSION,
+                /*@C08*/ s.ident_boundary_section == CAS_OBJECT_FORMAT_IDENT_BOUNDARIES, /*@C08*/ s.boundaries_version == CAS_OBJECT_FORMAT_BOUNDARIES_VERSION,
                 s.chunk_hashes@.len() == num_chunks_2, num_chunks_2 == num_chunks_3, s.chunk_boundary_offsets@.len() == vx_u, s.unpacked_chunk_offsets@.len() == 0,
                 hash_section_begin_byte_offset == 40, boundary_section_begin_byte_offset == 52 + 32 * num_chunks_2,
                 r.n == boundary_section_begin_byte_offset + 12 + 4 * vx_u,
@@ -318,7 +318,7 @@ impl CasObjectInfoV1 {
                 reader.bytes() == old(reader).bytes(),
                 r.n <= r.avail, r.avail == 0 || old(reader).pos() + r.avail <= old(reader).bytes().len(), old(reader).bytes().len() <= u32::MAX,
                 s.ident == CAS_OBJECT_FORMAT_IDENT, s.version == CAS_OBJECT_FORMAT_VERSION, s.ident_hash_section == CAS_OBJECT_FORMAT_IDENT_HASHES, s.hashes_version == CAS_OBJECT_FORMAT_HASHES_VERSION,
-                s.ident_boundary_section == CAS_OBJECT_FORMAT_IDENT_BOUNDARIES, s.boundaries_version == CAS_OBJECT_FORMAT_BOUNDARIES_VERSION,
+                /*@C08*/ s.ident_boundary_section == CAS_OBJECT_FORMAT_IDENT_BOUNDARIES, /*@C08*/ s.boundaries_version == CAS_OBJECT_FORMAT_BOUNDARIES_VERSION,
                 s.chunk_hashes@.len() == num_chunks_2, num_chunks_2 == num_chunks_3, s.chunk_boundary_offsets@.len() == num_chunks_3, s.unpacked_chunk_offsets@.len() == vx_u,
                 hash_section_begin_byte_offset == 40, boundary_section_begin_byte_offset == 52 + 32 * num_chunks_2,
                 r.n == boundary_section_begin_byte_offset + 12 + 4 * num_chunks_3 + 4 * vx_u,
@@ -423,7 +423,7 @@ impl CasObjectInfoV1 {
                 reader.bytes() == old(reader).bytes(), old(reader).bytes().len() + 8 <= u32::MAX,
                 r.n <= r.avail, r.avail <= old(reader).bytes().len(),
                 s.ident == CAS_OBJECT_FORMAT_IDENT, s.version == CAS_OBJECT_FORMAT_VERSION, s.ident_hash_section == CAS_OBJECT_FORMAT_IDENT_HASHES, s.hashes_version == CAS_OBJECT_FORMAT_HASHES_VERSION,
-                s.ident_boundary_section == CAS_OBJECT_FORMAT_IDENT_BOUNDARIES, s.boundaries_version == CAS_OBJECT_FORMAT_BOUNDARIES_VERSION,
+                /*@C08*/ s.ident_boundary_section == CAS_OBJECT_FORMAT_IDENT_BOUNDARIES, /*@C08*/ s.boundaries_version == CAS_OBJECT_FORMAT_BOUNDARIES_VERSION,
                 s.chunk_hashes@.len() == num_chunks_2, num_chunks_2 == num_chunks_3, s.chunk_boundary_offsets@.len() == vx_u, s.unpacked_chunk_offsets@.len() == 0,
                 hash_section_begin_byte_offset == 32, boundary_section_begin_byte_offset == 44 + 32 * num_chunks_2,
                 r.n == boundary_section_begin_byte_offset + 12 + 4 * vx_u,
@@ -432,7 +432,7 @@ impl CasObjectInfoV1 {
                 reader.bytes() == old(reader).bytes(), old(reader).bytes().len() + 8 <= u32::MAX,
                 r.n <= r.avail, r.avail <= old(reader).bytes().len(),
                 s.ident == CAS_OBJECT_FORMAT_IDENT, s.version == CAS_OBJECT_FORMAT_VERSION, s.ident_hash_section == CAS_OBJECT_FORMAT_IDENT_HASHES, s.hashes_version == CAS_OBJECT_FORMAT_HASHES_VERSION,
-                s.ident_boundary_section == CAS_OBJECT_FORMAT_IDENT_BOUNDARIES, s.boundaries_version == CAS_OBJECT_FORMAT_BOUNDARIES_VERSION,
+                /*@C08*/ s.ident_boundary_section == CAS_OBJECT_FORMAT_IDENT_BOUNDARIES, /*@C08*/ s.boundaries_version == CAS_OBJECT_FORMAT_BOUNDARIES_VERSION,
                 s.chunk_hashes@.len() == num_chunks_2, num_chunks_2 == num_chunks_3, s.chunk_boundary_offsets@.len() == num_chunks_3, s.unpacked_chunk_offsets@.len() == vx_u,
                 hash_section_begin_byte_offset == 32, boundary_section_begin_byte_offset == 44 + 32 * num_chunks_2,
                 r.n == boundary_section_begin_byte_offset + 12 + 4 * num_chunks_3 + 4 * vx_u,
